@@ -2,7 +2,8 @@
 
 (R) correspondence of Model.Ogg / Model.Crc (extracted) with mutagen.ogg.OggPage: from_packets (page list field by
     field, rendered bytes, size, to_packets), write/parse on random and malformed pages, to_packets strict/lax,
-    _from_packets_try_preserve, renumber / replace / find_last on synthesised multiplexed files.
+    _from_packets_try_preserve, renumber / replace / find_last on synthesised multiplexed files; replace additionally over the
+    full product (fewer, equal, more new pages) x (smaller, equal, larger rendered size) with pages of the stream after the run.
 (D) direct oracle: only the public OggPage API, judged by an independent pure-Python Ogg page reader with its own
     bit-serial CRC (never mutagen's parser).
 (V) vm_compute shard: the extracted binary must agree with the kernel's evaluator.
@@ -50,7 +51,9 @@ RULE = ("packet lists: counts 0..300 x sizes on the lattice {0,1,254,255,256,509
         "65307,65536,70000} x (default_size, wiggle_room) in {(4096,2048),(255,0),(256,1),(510,100),(1000,0),(10000,2048),(30000,5000),"
         "(65024,0),(65025,2048)}; mixes: many small then one large, runs of empty packets; pages: random fields incl. out-of-range and "
         "incomplete/continued combinations, malformed byte streams (truncation, bad magic/version, random lacing); files: 2-3 serials "
-        "interleaved, a run of one serial's pages replaced by fewer/equal/more pages. non-trivial = at least one page produced / "
+        "interleaved, a run of one serial's pages replaced by fewer/equal/more pages; plus the full product (fewer, equal, more pages) x "
+        "(smaller, EQUAL, larger rendered byte size, incl. +-1, +-255/256) on packet-aligned runs that are followed by more pages of the "
+        "same serial with other serials' pages interleaved, every cell reached on every run. non-trivial = at least one page produced / "
         "parsed or a rejection; distinct by (sizes, parameters) resp. the rendered bytes")
 
 SIZES = [0, 1, 254, 255, 256, 509, 510, 511, 765, 1020, 4079, 4080, 4081, 2047, 2048, 2049, 6127, 6128, 6129, 8160,
@@ -863,6 +866,128 @@ def corr_one_file(ctx, O, data, spec, only=None, fixed=None):
             corr_replace(ctx, O, data, spec, pages, rel)
 
 
+def replaced_size(O, old_pages, new_pages):
+    """bytes the new pages occupy once replace() has copied `complete` of the last old page onto the last new page
+    (own lacing arithmetic: 27 + lacing values + payload)"""
+    total = 0
+    for j, p in enumerate(new_pages):
+        complete = bool(old_pages[-1].complete) if j == len(new_pages) - 1 else bool(p.complete)
+        lac = 0
+        for i, d in enumerate(p.packets):
+            lac += len(d) // 255 + 1
+            if i == len(p.packets) - 1 and not complete and len(d) % 255 == 0:
+                lac -= 1
+        total += 27 + lac + sum(len(d) for d in p.packets)
+    return total
+
+
+def packet_for(rest):
+    """n with n + n // 255 + 1 == rest (payload + lacing values of one finished packet), or None (rest = 256 m, rest < 1)"""
+    for k in (rest // 256, rest // 256 - 1):
+        n = rest - 1 - k
+        if k >= 0 and n >= 0 and n // 255 == k:
+            return n
+    return None
+
+
+def page_layout(rng, t):
+    """packet sizes of one complete page that renders to exactly t >= 28 bytes"""
+    prefixes = [[], [0]]
+    if rng.random() < 0.4:
+        prefixes.insert(0, [rng.choice([0, 1, 17, 100, 254, 255, 256])])
+    if rng.random() < 0.15:
+        prefixes.insert(0, [rng.choice([0, 1, 17]), rng.choice([0, 1, 40])])
+    for pre in prefixes:
+        n = packet_for(t - 27 - sum(a + a // 255 + 1 for a in pre))
+        if n is not None:
+            return pre + [n]
+    return None
+
+
+def split_total(rng, total, n):
+    """n page sizes >= 28 with the given sum"""
+    spare = total - 28 * n
+    cuts = sorted(rng.choice([0, spare, rng.randrange(spare + 1)]) for _ in range(n - 1))
+    parts = [b - a for a, b in zip([0] + cuts, cuts + [spare])]
+    return [28 + x for x in parts]
+
+
+def product_spec(rng):
+    """a multiplexed file whose first stream has many pages (so that runs with pages of the stream after them exist)"""
+    streams = [{"serial": 0, "start": rng.choice([0, 0, 5, 2 ** 32 - 400]),
+                "sizes": [rng.choice([100, 100, 200, 256, 600, 1300]) for _ in range(rng.choice([6, 7, 8]))],
+                "ds": rng.choice([255, 510, 600]), "wr": rng.choice([0, 100]), "eos": rng.random() < 0.7, "eos_mid": False}]
+    sers = rng.sample([1, 2, 3, 0x7FFFFFFF, 0xFFFFFFFF, 77, 0x4F676753], rng.choice([1, 1, 2]))
+    streams[0]["serial"] = rng.choice([0, 5, 0xFFFFFFFE])
+    for ser in sers:
+        streams.append({"serial": ser, "start": rng.choice([0, 0, 5]),
+                        "sizes": [rng.choice([0, 1, 30, 255, 256, 600, 1300]) for _ in range(rng.choice([2, 4, 6]))],
+                        "ds": rng.choice([255, 510, 600]), "wr": rng.choice([0, 100]), "eos": rng.random() < 0.7, "eos_mid": rng.random() < 0.5})
+    return {"streams": streams, "order_seed": rng.randrange(1 << 30)}
+
+
+COUNT_RELS = ("fewer", "equal", "more")
+BYTE_RELS = ("smaller", "equal", "larger")
+
+
+def product_case(ctx, O, crel, brel):
+    """a replace case in the cell (page-count relation, byte-size relation): a packet-aligned run of the first stream's pages that
+    is followed by more pages of the same stream, with pages of other streams after the start of the run.
+    -> (data, spec, pages, fixed) or None"""
+    rng = ctx.rng
+    for attempt in range(60):
+        data, spec = synth_file(ctx, O, product_spec(rng))
+        pages = read_impl_pages(O, data)
+        serial = spec["streams"][0]["serial"]
+        mine_idx = [i for i, p in enumerate(pages) if p.serial == serial]
+        runs = [(a, b) for a in range(len(mine_idx)) for b in range(a + 1, len(mine_idx))      # b < len: pages of the stream follow
+                if not pages[mine_idx[a]].continued and pages[mine_idx[b - 1]].complete
+                and (crel != "fewer" or b - a >= 2)
+                and any(p.serial != serial for p in pages[mine_idx[a] + 1:])]
+        if not runs:
+            continue
+        a, b = rng.choice(runs)
+        nold = b - a
+        total = sum(pages[i].size for i in mine_idx[a:b])
+        nnew = {"fewer": rng.randrange(1, nold) if nold > 1 else 1, "equal": nold, "more": nold + rng.choice([1, 1, 2, 3])}[crel]
+        lo = 28 * nnew
+        if brel == "equal":
+            target = total
+        elif brel == "smaller":
+            if total - 1 < lo:
+                continue
+            target = max(lo, rng.choice([total - 1, total - 1, total - 2, total - 255, total - 256, rng.randrange(lo, total)]))
+        else:
+            target = rng.choice([total + 1, total + 1, total + 2, total + 255, total + 256, total + rng.randrange(1, 3000)])
+        if target < lo:
+            continue
+        fixed = {"serial": serial, "a": a, "b": b, "nnew": nnew, "pseed": rng.randrange(1 << 30), "chain": False, "cell": [crel, brel]}
+        # one packet over nnew pages of 255 payload bytes: 283 (nnew - 1) + 28 + r bytes
+        r = target - 283 * (nnew - 1) - 28
+        if nnew > 1 and 1 <= r <= 254 and rng.random() < 0.5:
+            fixed["chain_n"] = 255 * (nnew - 1) + r
+            return data, spec, pages, fixed
+        layout = [page_layout(rng, t) for t in split_total(rng, target, nnew)]
+        if any(l is None for l in layout):
+            continue
+        fixed["layout"] = layout
+        return data, spec, pages, fixed
+    return None
+
+
+def corr_replace_product(ctx, O, reps):
+    """the full product old/new page-count relation x byte-size relation, `reps` cases per cell"""
+    for rep in range(reps):
+        for crel in COUNT_RELS:
+            for brel in BYTE_RELS:
+                c = product_case(ctx, O, crel, brel)
+                if c is None:
+                    ctx.count("file:replace-product-unreachable")
+                    continue
+                data, spec, pages, fixed = c
+                corr_replace(ctx, O, data, spec, pages, "product", fixed)
+
+
 def corr_replace(ctx, O, data, spec, pages, rel, fixed=None):
     import random
     rng = ctx.rng
@@ -889,7 +1014,20 @@ def corr_replace(ctx, O, data, spec, pages, rel, fixed=None):
     old_pages = [pages[i] for i in mine_idx[a:b]]
     # nnew pages: one packet per page of > 255 bytes with default_size 255 would split; build pages directly from packets
     prng = random.Random(fixed["pseed"])
-    if fixed.get("chain"):
+    if fixed.get("layout") is not None:
+        # explicit layout (page-count x byte-size product): packet sizes per new page, every page complete
+        new_packets, new_pages = [], []
+        for j, sizes in enumerate(fixed["layout"]):
+            pks = [bytes([0xC0 | ((3 * j + i) & 15)]) * n for i, n in enumerate(sizes)]
+            p = O.OggPage(); p.packets = list(pks); p.position = 5000 + j
+            new_pages.append(p); new_packets += pks
+        nnew = len(new_pages)
+    elif fixed.get("chain_n") is not None:
+        # one packet of chain_n bytes spread over the new pages by from_packets (product with continued pages inside the new run)
+        new_packets = [bytes([0xD0 | (fixed["pseed"] & 15)]) * fixed["chain_n"]]
+        new_pages = O.OggPage.from_packets(list(new_packets), 0, 255, 0)
+        nnew = len(new_pages)
+    elif fixed.get("chain"):
         # one packet spread over nnew pages by from_packets (continued / incomplete pages inside the new run)
         new_packets = [bytes([0xD0 | (fixed["pseed"] & 15)]) * ((nnew - 1) * 255 + prng.choice([1, 100, 254]))]
         new_pages = O.OggPage.from_packets(list(new_packets), 0, 255, 0)
@@ -901,6 +1039,7 @@ def corr_replace(ctx, O, data, spec, pages, rel, fixed=None):
             p = O.OggPage(); p.packets = [pk]; p.position = 5000 + j
             new_pages.append(p)
     new_fields = [page_fields(p) for p in new_pages]
+    old_bytes, new_bytes = sum(p.size for p in old_pages), replaced_size(O, old_pages, new_pages)
     f = io.BytesIO(data)
     mine = file_result(lambda: O.OggPage.replace(f, old_pages, new_pages), f)
     rm = ctx.model.call("ogg_replace", hx(data),
@@ -909,6 +1048,14 @@ def corr_replace(ctx, O, data, spec, pages, rel, fixed=None):
     ctx.corr_cases += 1
     relname = "fewer" if nnew < len(old_pages) else ("equal" if nnew == len(old_pages) else "more")
     ctx.count("file:replace-" + relname)
+    brel = "smaller" if new_bytes < old_bytes else ("equal" if new_bytes == old_bytes else "larger")
+    after_run = sum(1 for p in pages if p.serial == serial and p.offset > old_pages[-1].offset)
+    foreign_after = sum(1 for p in pages if p.serial != serial and p.offset > old_pages[0].offset)
+    ctx.count("file:replace-pages-%s-bytes-%s" % (relname, brel))
+    if after_run and foreign_after:
+        ctx.count("file:replace-pages-%s-bytes-%s+tail+foreign" % (relname, brel))
+    if fixed.get("cell") and fixed["cell"] != [relname, brel]:
+        ctx.count("file:replace-product-mislabelled")
     ctx.case(("rp", spec["order_seed"], serial, a, b, nnew, fixed["pseed"]))
     d = {"runner": "c15.file", "spec": spec, "op": "replace", "fixed": fixed}
     if mine != rm and len(ctx.disagreements) < 6:
@@ -1027,10 +1174,10 @@ def run(ctx):
     crc_against_libogg(ctx)
     if ctx.thorough:
         cases = paging_cases(ctx, 500, 700, 30, [65025, 65307, 65536, 70000])
-        npages, ntp, npres, nfiles = 1500, 2000, 600, 220
+        npages, ntp, npres, nfiles, nprod = 1500, 2000, 600, 220, 40
     else:
         cases = paging_cases(ctx, 60, 60, 4, [65307, 70000])
-        npages, ntp, npres, nfiles = 90, 150, 50, 14
+        npages, ntp, npres, nfiles, nprod = 90, 150, 50, 14, 3
     big_budget = 8 if ctx.thorough else 3
     for sizes, ds, wr, tag in cases:
         total = sum(sizes)
@@ -1045,6 +1192,14 @@ def run(ctx):
     corr_to_packets(ctx, O, ntp)
     corr_try_preserve(ctx, O, npres)
     corr_files(ctx, O, nfiles)
+    corr_replace_product(ctx, O, nprod)
+    missing = [c + "/" + b for c in COUNT_RELS for b in BYTE_RELS
+               if not ctx.hist.get("file:replace-pages-%s-bytes-%s+tail+foreign" % (c, b))]
+    ctx.notes["replace_product_cells"] = {c + "/" + b: ctx.hist.get("file:replace-pages-%s-bytes-%s+tail+foreign" % (c, b), 0)
+                                          for c in COUNT_RELS for b in BYTE_RELS}
+    if missing or ctx.hist.get("file:replace-product-mislabelled"):
+        ctx.disagree("c15.replace_product", "replace exploration did not reach every (page-count, byte-size) cell: missing %s, mislabelled %d"
+                     % (missing, ctx.hist.get("file:replace-product-mislabelled", 0)), {})
     vm_crosscheck(ctx)
 
 
@@ -1070,6 +1225,14 @@ def search(ctx, broken):
                 del ctx.disagreements[nd:]
             finally:
                 ctx.model.call = saved
+    saved = ctx.model.call
+    try:
+        ctx.model.call = lambda *a: ""      # oracle only
+        nd = len(ctx.disagreements)
+        corr_replace_product(ctx, O, 25)
+        del ctx.disagreements[nd:]
+    finally:
+        ctx.model.call = saved
     ctx.notes["search"] = "wider lattice/paging/replace search found %d failing inputs" % (len(ctx.violations) - before)
 
 
